@@ -3,6 +3,8 @@ package props
 import (
 	"context"
 	"fmt"
+	"google.golang.org/grpc"
+	"google.golang.org/grpc/metadata"
 
 	"github.com/avos-io/goat/vh/env"
 	"github.com/avos-io/goat/vrt/explore"
@@ -64,10 +66,10 @@ func c15(tier string) []*explore.Scenario {
 			out = append(out, sc)
 		}
 	}
-	out = append(out, c15ProxyAttach(), c15StreamThreeThreads(), c15LateReplyVsNewCalls(2))
+	out = append(out, c15ProxyAttach(), c15StreamThreeThreads(), c15LateReplyVsNewCalls(2), c15UnaryHeaderRace())
 	for _, sc := range out {
 		sc.Race = true
-		if sc.Bound > 1 && tier != "thorough" && !containsStr(sc.Name, "late-replies-vs-new-calls") && !containsStr(sc.Name, "header-race/concurrent-se") { // (that one is small: 2 deviations in the quick tier too)
+		if sc.Bound > 1 && tier != "thorough" && !containsStr(sc.Name, "late-replies-vs-new-calls") && !containsStr(sc.Name, "header-race/concurrent-se") && !containsStr(sc.Name, "handler-goroutine-headers") { // (that one is small: 2 deviations in the quick tier too)
 			sc.Bound = 1
 		}
 	}
@@ -183,6 +185,38 @@ func c15LateReplyVsNewCalls(bound int) *explore.Scenario {
 			bcancel()
 			s2cancel()
 			vsched.Quiesce()
+			d.Pipe.A.Break()
+			d.Pipe.B.Break()
+			vsched.Quiesce()
+		},
+	}
+}
+
+// c15UnaryHeaderRace: a unary handler whose helper goroutine sets headers while the handler itself sends them (and
+// sets a trailer), joined before the handler returns - every call is allowed by the API at that time.
+func c15UnaryHeaderRace() *explore.Scenario {
+	return &explore.Scenario{
+		Name: "C15/unary/handler-goroutine-headers", Family: "C15/api", Prop: "C15", Bound: 2,
+		Run: func() {
+			w := env.NewWorld()
+			env.MsgSize = 0
+			d := env.NewDirect(w, env.DirectOpts{Pipe: env.PipeOpts{Cap: 64}})
+			vsched.Settle()
+			vsched.Explore(true)
+			r := w.Rec("u", "Unary")
+			w.Unaries["u"] = func(r *env.Rec, ctx context.Context, in string) (string, error) {
+				done := make(chan struct{})
+				vsched.GoNamed("handler-helper", func() {
+					grpc.SetHeader(ctx, metadata.MD{"a": {"1"}})
+					grpc.SetTrailer(ctx, metadata.MD{"t": {"1"}})
+					close(done)
+				})
+				grpc.SendHeader(ctx, metadata.MD{"b": {"2"}})
+				grpc.SetHeader(ctx, metadata.MD{"c": {"3"}})
+				<-done
+				return "R:" + in, nil
+			}
+			w.CallUnary(d.CC, context.Background(), r, "x")
 			d.Pipe.A.Break()
 			d.Pipe.B.Break()
 			vsched.Quiesce()
